@@ -40,7 +40,11 @@ META = {
             "state carries, next to the server's own fields, the harness's count of failed attempts seen on the "
             "wire, and the user name the reference model has pinned (first name requested, whatever kind of answer the "
             "request got), so histories in which the server's counter drifts from the wire or the server's pinned "
-            "name drifts from the first requested name are explored separately.",
+            "name drifts from the first requested name are explored separately. Dimension 'key re-exchange as an "
+            "event of the history': a complete re-exchange begun by the client, and one begun by the server, are "
+            "two more events of the alphabet (both tiers), enabled in every state - before the first request, "
+            "between any two attempts, after a partial success / query / PK_OK, after authentication; the pinned "
+            "name and the attempt count must survive it (the reference model ignores the event).",
     "note": "failed attempts are counted on the wire (non-partial USERAUTH_FAILURE sent by the server); server "
             "application answers are scripted per packet; server side is unmodified paramiko",
     "design_ref": "4/C16",
@@ -93,6 +97,8 @@ def alphabet(tier):
     evs += [req(a, SC, KI, "Q"), req(a, SC, KI, "F"), req(a, SC, GKX_NOCTX, "F"),
             ("iresp", "F"), ("iresp", "S"),
             ("burst", (req(a, SC, PW, "F"), ("iresp", "S")))]
+    # dimension "key re-exchange as an event": either side re-keys the connection, at any position of the history
+    evs += list(A.REKEY_EVENTS)
     b = users[1]
     if tier == "thorough":
         for u in users[:2]:
@@ -114,7 +120,7 @@ def alphabet(tier):
 
 
 DEAD_PROBES = [req("alice", SC, PW, "S"), req("bob", SC, PW, "S"), req(EMPTY, SC, PW, "S"), ("iresp", "S"),
-               ("burst", (req("alice", SC, PW, "F"), req("alice", SC, PW, "S")))]
+               ("burst", (req("alice", SC, PW, "F"), req("alice", SC, PW, "S"))), ("rekey", "client")]
 
 
 # canon: the server-side handlers branch only on AuthHandler.authenticated / auth_username /
@@ -136,6 +142,12 @@ DEAD_PROBES = [req("alice", SC, PW, "S"), req("bob", SC, PW, "S"), req(EMPTY, SC
 # alphabet.  Ended connections (transport
 # thread has left run()) have no future; they are kept apart by cause (disconnect reason code, cap
 # reached) only so that clause D is exercised on each of them.
+# Key re-exchange events: nothing the handlers above branch on belongs to the key exchange (the exchange hash
+# and the new keys are read by no authentication code path of clause U/S/T), so "re-keyed or not" is not a
+# component of its own: on a conforming server a re-exchange is a self-loop of every state.  What a
+# re-exchange could disturb - the handler object, its pinned name, its counter - IS in the key next to the
+# harness's own wire count / the model's pinned name, so a server that loses any of it in a re-exchange lands in
+# a new state (server: nobody / 0, harness: alice / n) whose futures are then explored with the whole alphabet.
 def canon(obs):
     o = obs[-1]
     if not o["active"]:
@@ -157,6 +169,14 @@ def wire_success(obs):
     return any(t[0] == 52 for ob in obs for t in ob["tx"])
 
 
+def auth_cbs_of(o):
+    return [c for c in o["cb"] if c[0] in A.AUTH_CALLBACKS]
+
+
+def granted_in(prev, o):
+    return (o["authed"] and not prev["authed"]) or any(t[0] == 52 for t in o["tx"])
+
+
 def subs_of(ev):
     ev = R.tup(ev)
     return list(ev[1]) if ev[0] == "burst" else [ev]
@@ -174,10 +194,31 @@ def judge(hist, obs, acc):
 
     # model state before the event, then sub-event by sub-event
     m = R.Model(enforce_cap=True)
-    for e in hist[:-1]:
+    for e in A.strip_rekeys(hist[:-1]):
         m.step(e)
     dead_before = not m.alive
     dead_cause = m.dead_cause
+    if A.is_rekey(ev):
+        # a key re-exchange: the statement demands nothing of it but what holds for every event - nothing is
+        # evaluated or granted on an ended connection (D), nobody is authenticated by it, the authenticated
+        # name does not change (A).  What it must PRESERVE (pinned name, attempt count) is judged by the
+        # requests that follow it: the state after it is keyed by the server's and the harness's view (canon).
+        acc.count("re_exchange_events")
+        if o.get("rekey") == "ok":
+            acc.count("re_exchanges_completed")
+            acc.nt(("rekey", ev[1], prev["user"] is None, prev["fails"], prev["ah_authed"]))
+        elif prev["active"] and prev.get("client_alive"):
+            raise RuntimeError("C16 harness: re-exchange on a live connection did not complete: %r after %r"
+                               % (o.get("rekey"), hist))
+        if dead_before and (auth_cbs_of(o) or granted_in(prev, o)):
+            bad.append("evaluated-after-connection-end:%s:%s" % (dead_cause, "re-exchange"))
+        elif granted_in(prev, o) or auth_cbs_of(o):
+            bad.append("re-exchange-evaluated-or-granted")
+        if prev["authed"] and o["active"] and o["user"] != prev["user"]:
+            bad.append("username-changed-after-authentication")
+        for k in bad:
+            acc.violation(k, detail, replay)
+        return not bad
     verdicts = [m.step(s) for s in subs]
     granted = (o["authed"] and not prev["authed"]) or any(t[0] == 52 for t in o["tx"])
     auth_cbs = [c for c in o["cb"] if c[0] in A.AUTH_CALLBACKS]
@@ -266,7 +307,8 @@ def run(hist):
     m = R.Model(enforce_cap=True)
     obs[0]["m_user"] = None
     for ev, o in zip(hist, obs[1:]):
-        m.step(ev)
+        if not A.is_rekey(R.tup(ev)):
+            m.step(ev)
         o["m_user"] = m.user
     return obs
 
@@ -287,10 +329,13 @@ def main(tier):
         "[username change / other service / cap reached / event on an ended connection] or plain event, "
         "method+answer of each packet [the method/kind is the path that produces the failure: request tail, "
         "keyboard-interactive, info response, gssapi-keyex without context], same-user flag, pinned?, failure "
-        "count before, authenticated before, reply class)",
+        "count before, authenticated before, reply class), or a completed key re-exchange keyed by (initiator, "
+        "pinned?, failure count before, authenticated before)",
         ["server application answers are scripted per packet", "client side only transports harness-composed packets",
          "event mode: the server reacts completely to one packet / one pipelined burst before the next",
          "failed attempts counted as non-partial USERAUTH_FAILURE messages sent by the server",
+         "a key re-exchange event runs to completion on both sides before the next event (no request is in "
+         "flight inside it)",
          "the application enables GSS-API; no GSS library is installed, the key-exchange GSS context is a stub "
          "(vmc/authfix.StubGSS) or absent"])
     depth = 13 if tier == "quick" else 14
@@ -308,7 +353,7 @@ def main(tier):
         ck.cap_hit("depth bound %d reached with %d unexpanded states" % (depth, out.frontier_left))
     c = ck.acc.counters
     missing = [n for n in ("cap_reached", "fatal_requests:username-change", "fatal_requests:other-service",
-                           "events_on_ended_connection") if not c.get(n)]
+                           "events_on_ended_connection", "re_exchanges_completed") if not c.get(n)]
     if missing and not ck.acc.violations:
         raise RuntimeError("C16: clauses never exercised (harness broken?): %r" % missing)
     return ck.finish()
